@@ -428,6 +428,34 @@ theorem turn_eq (env : Env) (fe : FsEnv) (sock : Sock) (cfg : Copier.Cfg) (cs : 
       rw [← this]
     rw [if_neg hi, e]
 
+/-- the same when no copier exists (404 and directory responses) -/
+theorem turn_eq_none (env : Env) (fe : FsEnv) (sock : Sock)
+    (ha : sock.alive = true)
+    (hidle : onReadyRead env (app fe) (turnSock sock) = turnSock sock) :
+    FsHandler.turn env fe { sock := sock, cop := none, routed := true } =
+      { sock :=
+          (if (turnSock sock).delPending then
+             { turnSock sock with alive := false, delPending := false, log := (turnSock sock).log ++ [Obs.del] }
+           else turnSock sock),
+        cop := none, routed := true } := by
+  unfold FsHandler.turn
+  simp only []
+  rw [if_neg (by simp [ha])]
+  simp only [Bool.not_true, Bool.false_eq_true, if_false, afterRoute, Bool.false_and]
+  generalize hk : Obs.countP _ sock.log = k
+  have hk' : k = Obs.countP isEv sock.log := by rw [← hk]; rfl
+  subst hk'
+  by_cases hi : sock.initPending = true
+  · have e : ({ sock with log := sock.log ++ [Obs.ev (Obs.countP isEv sock.log)], initPending := false } : Sock) =
+        turnSock sock := rfl
+    rw [if_pos hi, e, hidle]
+  · have e : ({ sock with log := sock.log ++ [Obs.ev (Obs.countP isEv sock.log)] } : Sock) =
+        turnSock sock := by
+      have : sock.initPending = false := by simpa using hi
+      unfold turnSock
+      rw [← this]
+    rw [if_neg hi, e]
+
 theorem turnSock_fedSock (rh : Parser.ReqHead) (p : Bytes) (q : List (Bytes × Bytes)) (r : Range)
     (size : Nat) (mime : Bytes) :
     turnSock (fedSock rh p q r size mime) =
@@ -456,7 +484,7 @@ theorem turn_first (env : Env) (fe : FsEnv) (rh : Parser.ReqHead) (p : Bytes) (q
 structure TInv (W : List Bytes) (st : FsHandler.St) : Prop where
   shut : C03L.Shut st.sock
   routed : st.routed = true
-  cop : ∃ cfg cs, st.cop = some (cfg, cs) ∧ cs.pending = .none
+  cop : ∀ cfg cs, st.cop = some (cfg, cs) → cs.pending = .none
   chunks : C03L.chunks st.sock.log = W
 
 theorem quietApp_fs (fe : FsEnv) : C03L.QuietApp (app fe) :=
@@ -472,42 +500,58 @@ theorem copier_idle (cfg : Copier.Cfg) (cs : Copier.St) (h : cs.pending = .none)
     Copier.step cfg cs .turn = cs := by
   simp [Copier.step, h]
 
+/-- deferred deletion -/
+def delStep (s : Sock) : Sock := { s with alive := false, delPending := false, log := s.log ++ [Obs.del] }
+
 theorem tinv_step (env : Env) (fe : FsEnv) {W : List Bytes} {st : FsHandler.St} (h : TInv W st)
     {e : Event} (he : C03L.allowedEv e = true) : TInv W (FsHandler.step env fe st e) := by
   obtain ⟨sock, cop, routed⟩ := st
-  obtain ⟨hs, hr, ⟨cfg, cs, hc, hp⟩, hw⟩ := h
-  simp only at hs hr hc hp hw
-  subst hr hc
+  obtain ⟨hs, hr, hcop, hw⟩ := h
+  simp only at hs hr hcop hw
+  subst hr
   by_cases hturn : e = .turn
   · subst hturn
-    have e0 : FsHandler.step env fe { sock := sock, cop := some (cfg, cs), routed := true } .turn =
-        FsHandler.turn env fe { sock := sock, cop := some (cfg, cs), routed := true } := rfl
+    have e0 : FsHandler.step env fe { sock := sock, cop := cop, routed := true } .turn =
+        FsHandler.turn env fe { sock := sock, cop := cop, routed := true } := rfl
     rw [e0]
     by_cases ha : sock.alive = true
     · have hidle : onReadyRead env (app fe) (turnSock sock) = turnSock sock :=
         C03L.onReadyRead_idle env (app fe) _ hs.rb hs.inbox hs.rs
-      rw [turn_eq env fe sock cfg cs ha hidle, copier_idle cfg cs hp]
-      simp only [List.drop_length, relay_nil]
       have hs1 : C03L.Shut (turnSock sock) :=
         hs.of_eq rfl hs.rs (hs.logShut.snoc rfl)
       have hw1 : C03L.chunks (turnSock sock).log = W := by
         show C03L.chunks (sock.log ++ [Obs.ev _]) = W
         rw [C03L.chunks_ev]; exact hw
-      by_cases hd : (turnSock sock).delPending = true
-      · rw [if_pos hd]
-        refine ⟨hs1.of_eq rfl hs1.rs (hs1.logShut.snoc rfl), rfl, ⟨cfg, cs, rfl, hp⟩, ?_⟩
-        show C03L.chunks ((turnSock sock).log ++ [Obs.del]) = W
+      have hdel : C03L.Shut (delStep (turnSock sock)) ∧
+          C03L.chunks ((turnSock sock).log ++ [Obs.del]) = W := by
+        refine ⟨hs1.of_eq rfl hs1.rs (hs1.logShut.snoc rfl), ?_⟩
         rw [C03L.chunks_append, hw1]; simp [C03L.chunks]
-      · rw [if_neg hd]
-        exact ⟨hs1, rfl, ⟨cfg, cs, rfl, hp⟩, hw1⟩
+      cases cop with
+      | none =>
+        rw [turn_eq_none env fe sock ha hidle]
+        by_cases hd : (turnSock sock).delPending = true
+        · rw [if_pos hd]
+          exact ⟨hdel.1, rfl, fun _ _ h => (by cases h), hdel.2⟩
+        · rw [if_neg hd]
+          exact ⟨hs1, rfl, fun _ _ h => (by cases h), hw1⟩
+      | some cc =>
+        obtain ⟨cfg, cs⟩ := cc
+        have hp := hcop cfg cs rfl
+        rw [turn_eq env fe sock cfg cs ha hidle, copier_idle cfg cs hp]
+        simp only [List.drop_length, relay_nil]
+        by_cases hd : (turnSock sock).delPending = true
+        · rw [if_pos hd]
+          exact ⟨hdel.1, rfl, hcop, hdel.2⟩
+        · rw [if_neg hd]
+          exact ⟨hs1, rfl, hcop, hw1⟩
     · have ha' : sock.alive = false := by simpa using ha
       rw [turn_dead env fe _ ha']
-      exact ⟨hs, rfl, ⟨cfg, cs, rfl, hp⟩, hw⟩
+      exact ⟨hs, rfl, hcop, hw⟩
   · rw [step_nonturn env fe _ e hturn]
     obtain ⟨h1, h2, _⟩ := C03L.shut_stepK (quietApp_fs fe) env (Obs.countP isEv sock.log) hs he
     unfold afterRoute
     simp only [Bool.not_true, Bool.false_and, Bool.false_eq_true, if_false]
-    exact ⟨h1, rfl, ⟨cfg, cs, rfl, hp⟩, by rw [h2]; exact hw⟩
+    exact ⟨h1, rfl, hcop, by rw [h2]; exact hw⟩
 
 theorem tinv_foldl (env : Env) (fe : FsEnv) {W : List Bytes} (tail : List Event)
     (ht : tail.all C03L.allowedEv = true) :
@@ -580,7 +624,7 @@ theorem run_wire (env : Env) (fe : FsEnv) (req head : Bytes) (rh : Parser.ReqHea
         cop := some (fileCfg fe loc r,
           Copier.step (fileCfg fe loc r) (Copier.start (fileCfg fe loc r) {}) .turn),
         routed := true } :=
-    ⟨shut_turnedSock _ _ _ _ _ _ _, rfl, ⟨_, _, rfl, hpend⟩, rfl⟩
+    ⟨shut_turnedSock _ _ _ _ _ _ _, rfl, fun _ _ h => (by cases h; exact hpend), rfl⟩
   have hfin := tinv_foldl env fe tail ht hinv
   rw [C03L.wire_eq_chunks, hfin.chunks, chunks_turnedSock]
 
